@@ -295,9 +295,13 @@ def matchfile_from_alignment(
 
             duration_symb = Fraction(duration_divs, dpq * 4)
 
-            beat = int((onset_divs - msd) // dpq)
+            # beat within the measure in units of the time signature's beat
+            # (not in quarters), offset within that beat in whole notes
+            beat = int(onset_divs - msd) * int(ts_den) // (dpq * 4)
 
-            moffset_divs = Fraction(int(onset_divs - msd - beat * dpq), (dpq * 4))
+            moffset_divs = Fraction(int(onset_divs - msd), dpq * 4) - Fraction(
+                beat, int(ts_den)
+            )
 
             if debug:
                 duration_beats = offset_beats - onset_beats
